@@ -24,7 +24,7 @@ func init() { register(c10{}) }
 func (c10) Meta() core.Meta {
 	return core.Meta{
 		ID: "C10", Level: "exploration",
-		Rule:        "case i = f(seed,i): JSON/XML-shaped Map over a 4-key alphabet (k present at several levels, absent at the addressed node, list as the node before the last key, list- and map-valued targets) + key k + plain/wildcard path in both addressing forms (path ends in k / k is an entry of the nodes the path yields) + 0..2 sub-key conditions (numeric ones incl. near misses of real values; separators ':' '|' ';' and the multi-byte '=>' '::' '§') + new value given as a single-entry map (string, number or map sentinel), as mxj.Map, or as a 'key:value[:type]' string (default and alternative separator). The new value is a sentinel that occurs nowhere in the Map, so the set of replaced slots is read off the result. Invariants: frame (everything but sentinel slots unchanged, nothing added or removed), soundness and completeness of the sentinel slots against the reference addressed set (three-valued sub-key predicate; for a list-valued target the condition may be read on the parent or on the members), count == number of sentinel slots, count 0 => untouched, ValuesForPath afterwards == count copies when the path ends in k without sub-keys; j2x wrapper returns the encoding of the result. Non-trivial: at least one addressed slot; distinct by hash(map,k,path,subkeys).",
+		Rule:        "case i = f(seed,i): JSON/XML-shaped Map over a 4-key alphabet (k present at several levels, absent at the addressed node, list as the node before the last key, list- and map-valued targets) + key k + plain/wildcard path in both addressing forms (path ends in k / k is an entry of the nodes the path yields) + 0..2 sub-key conditions (numeric ones incl. near misses of real values; separators ':' '|' ';' and the multi-byte '=>' '::' '§') + new value given as a single-entry map (string, number or map sentinel), as mxj.Map, or as a 'key:value[:type]' string (default and alternative separator). The new value is a sentinel that occurs nowhere in the Map, so the set of replaced slots is read off the result. Invariants: frame (everything but sentinel slots unchanged, nothing added or removed), soundness and completeness of the sentinel slots against the reference addressed set (three-valued sub-key predicate; for a list-valued target the condition may be read on the parent or on the members), count == number of sentinel slots, count 0 => untouched, ValuesForPath afterwards == count copies when the path ends in k without sub-keys; j2x wrapper returns the encoding of the result. Also: the typed bool form; (I6) in a third of the cases whose path does not start with a wildcard one list of the Map is stored a second time under an unaddressed top-level key and must keep its members (same objects, equal scalars, same order); new values of no documented form must leave the Map untouched whenever an error or a count of zero is reported. Non-trivial: at least one addressed slot; distinct by hash(map,k,path,subkeys).",
 		Assumptions: []string{"reference addressed-slot set written from the property statement (DESIGN 4 C10)", "a negated typed sub-key on an absent key is unspecified"},
 		Anchors:     []string{"Map.UpdateValuesForPath", "updateValuesForKeyPath", "updateValue", "j2x.JsonUpdateValsForPath"},
 		Floors:      map[string]int64{"addressed>0": 3000, "addressed>1": 300, "shape:list-before-last-key": 200, "shape:key-absent-at-node": 500, "shape:wildcard-last": 200, "shape:list-valued-target": 100, "subkeys:some-replaced": 100, "form:string": 1000, "form:typed-num": 200, "alias:list-stored-twice": 1000, "form:typed-bool": 300, "malformed-newval:error": 300},
